@@ -288,6 +288,13 @@ theorem C01_source_create (dtype : Option DType) (shape : Option (List Nat)) (da
         "if data is not None:\n    da.write_direct(data)", "da.unit = unit", "da.label = label"]) :=
   ⟨createRules_eq dtype shape data compr, rfl⟩
 
+/-- what the driver of the correspondence runs — typed steps and creation executed through the compiled
+definitions — is the model: `stepGen = stepS`, `createGen = createS` -/
+theorem C01_source_step (A : DArr) (s : TStep) (dtype : Option DType) (shape : Option (List Nat))
+    (data : Option Arr) (compr : Bool) :
+    stepGen A s = stepS A s ∧ createGen dtype shape data compr = createS dtype shape data compr :=
+  ⟨stepGen_eq A s, createRules_eq dtype shape data compr⟩
+
 /-! ## typed data: conversion, refusals, restore -/
 
 /-- data that already has the array's element type is stored as it is; whatever is stored is a value of the
@@ -329,6 +336,23 @@ theorem C01_typed_history (A : DArr) (steps : List TStep) (hp : ∀ s ∈ steps,
     (Typed A → Typed (runS A steps)) :=
   ⟨(runS_refines steps A hp).1, (runS_refines steps A hp).2.1, (runS_refines steps A hp).2.2,
    fun hA => runS_typed steps A hA⟩
+
+/-- `append` with typed data of an accepted kind along an axis that names a dimension (same rank, other extents
+equal): no exception, and the array reads back as the concatenation with the converted data — shape included,
+pointwise on every multi-index (`C01_append_concat` carried over to the code path with conversion and restore) -/
+theorem C01_typed_append_concat (A : DArr) (d : Arr) (axis : Int) (hk : convRefusal d.dt A.dtype = none)
+    (h : AppendOk A.arr.shape (contiguous d.a).shape axis) :
+    ∃ B, appendS A d axis = (B, none) ∧ B.dtype = A.dtype ∧
+      B.arr.shape = (A.arr.concat (contiguous (convArr A.dtype d.a)) axis.toNat).shape ∧
+      ∀ idx, inBounds idx B.arr.shape = true →
+        B.arr.get idx = (A.arr.concat (contiguous (convArr A.dtype d.a)) axis.toNat).get idx := by
+  obtain ⟨B, hB, happ⟩ := appendS_accepts A d axis hk h
+  have h' : AppendOk A.arr.shape (contiguous (convArr A.dtype d.a)).shape axis := by
+    rw [contiguous_convArr]; exact h
+  obtain ⟨B', hB', h1, _, h3, h4⟩ := C01_append_concat A (convArr A.dtype d.a) axis h'
+  rw [happ] at hB'
+  cases hB'
+  exact ⟨B, hB, h1, h3, h4⟩
 
 /-- stored elements are typed after any typed history, `Ellipsis` or not -/
 theorem C01_typed_always (A : DArr) (steps : List TStep) (hA : Typed A) : Typed (runS A steps) :=
